@@ -107,6 +107,7 @@ def public_path(spec, rng, acc):
     """Known PGNs: harness-built frames into every decode front-end, and encode->decode for encodable ones."""
     dbx = refdb.db()
     dec = NMEA2000Decoder()
+    long_dec = NMEA2000Decoder()
     enc = NMEA2000Encoder()
     defs = [d for d in dbx.defs if d.supported and d.fixed_layout and d.type in ("Single", "Fast")]
     defs = [d for k, d in enumerate(defs) if k % spec["n"] == spec["i"]]
@@ -140,6 +141,20 @@ def public_path(spec, rng, acc):
                     for f in fr:
                         r = fdec.decode_tcp(wire.ebyte_frame(ident, f))
                     outs["ebyte_fast"] = r
+                    # the same stream right after a message that was cut off after its first frame and had been sent
+                    # with another priority (priority is per frame: the message carries that of the frames it is made of)
+                    seq2 = rng.randrange(8)
+                    other = wire.can_id((prio + 1 + rng.randrange(7)) % 8, d.pgn, src, dst)
+                    cut = wire.fast_frames(pb, (seq2 + 1 + rng.randrange(7)) % 8)[0]
+                    how = rng.choice(["ebyte", "usb", "yd"])
+                    feed1 = {"ebyte": lambda i, f: long_dec.decode_tcp(wire.ebyte_frame(i, f)), "usb": lambda i, f: long_dec.decode_usb(wire.usb_frame(i, f)),
+                             "yd": lambda i, f: long_dec.decode_yacht_devices_string(wire.yd_line(i, f).strip())}[how]
+                    if len(wire.fast_frames(pb, 0)) > 1:
+                        feed1(other, cut)
+                    r = None
+                    for f in wire.fast_frames(pb, seq2):
+                        r = feed1(ident, f)
+                    outs[f"{how}_fast_after_cut_off_message"] = r
             except Exception as e:  # noqa: BLE001
                 acc.count("decode_failed_not_judged_here")
                 acc.note(f"decode raised for {d.id}: {type(e).__name__}: {e}")
